@@ -871,7 +871,7 @@ func (p *parser) globalVars(q qualifiers, base *Type) {
 			if v, ok := p.tryConst(init); ok {
 				sym.constVal = v
 			} else {
-				if p.prog.es || p.prog.version < 420 {
+				if !init.k() && (p.prog.es || p.prog.version < 420) {
 					p.fail(nt.line, "initialiser of const %q is not a constant expression", nt.text)
 				}
 				// GLSL 4.20+: a const global may have a non-constant initialiser; store it as a read-only global
@@ -1338,7 +1338,7 @@ func (p *parser) declaration() []*Stmt {
 			sym.sp = spConst
 			if v, ok := p.tryConst(init); ok {
 				sym.constVal = v
-			} else if p.prog.es || p.prog.version < 420 {
+			} else if !init.k() && (p.prog.es || p.prog.version < 420) {
 				p.fail(nt.line, "initialiser of const %q is not a constant expression", nt.text)
 			}
 		}
